@@ -30,7 +30,8 @@ AllOk == Tr.a.status = "ok" /\ Tr.b.status = "ok" /\ Tr.c.status = "ok" /\ Tr.a.
 AllRan == Tr.a.status = "ok" /\ Tr.b.status = "ok" /\ Tr.c.status = "ok"
 SomeParsed == Tr.a.parse = "ok" \/ Tr.b.parse = "ok" \/ Tr.c.parse = "ok"
 Clauses ==
-  IF AllRan /\ ~AllOk /\ SomeParsed THEN {Tr.prop \o ".unparseable"}     \* one output of the related runs is not even a schema
+  IF Tr.rel = "bigbag" THEN (IF Tr.b.status # "ok" THEN {"C08.channel." \o Tr.b.status} ELSE R!BigBagClauses(Tr.a.sorted, Tr.b.sorted1, Tr.b.sorted2))
+  ELSE IF AllRan /\ ~AllOk /\ SomeParsed THEN {Tr.prop \o ".unparseable"}     \* one output of the related runs is not even a schema
   ELSE IF ~AllOk THEN {"SKIP.crashed"}
   ELSE CASE Tr.rel = "same" -> R!Same(Tr.prop, Tr.how, OA, OB)
          [] Tr.rel = "thr" -> R!Thr(OA, OB)
